@@ -579,15 +579,11 @@ func main() {
 		tier := flag.Lookup("tier").Value.String()
 		cfg := allCfgs()[*fWorker]
 		wo := bfs(cfg, tier == "thorough", time.Unix(*fDeadline, 0))
-		f1 := false // the schedule scenario presupposes that stale answers are served at all
-		for _, v := range wo.Viols {
-			if v.Class == "stale-not-served" {
-				f1 = true
-			}
+		extra := 20 * time.Second
+		if tier == "thorough" {
+			extra = 150 * time.Second
 		}
-		if !f1 {
-			wo.Conc = concurrency(cfg, tier == "thorough", time.Unix(*fDeadline, 0).Add(20*time.Second), wo)
-		}
+		wo.Conc = concurrency(*fWorker, len(allCfgs()), tier == "thorough", time.Unix(*fDeadline, 0).Add(extra), wo)
 		b, _ := json.Marshal(wo)
 		os.Stdout.Write(b)
 		os.Exit(0)
@@ -633,6 +629,9 @@ func main() {
 	stats := map[string]int64{}
 	var perCfg []map[string]any
 	var concExec, concOutcomes int64
+	concMerged := map[string]*concResult{}
+	var concOrder []string
+	concOutcomeSet := map[string]bool{}
 	for i, wo := range outs {
 		if *fOnlyCfg >= 0 && i != *fOnlyCfg {
 			continue
@@ -662,13 +661,22 @@ func main() {
 			r.Sample(map[string]any{"config": wo.Cfg.String(), "history": s})
 		}
 		pc := map[string]any{"config": wo.Cfg.String(), "levels": wo.Levels, "states": wo.States, "executions": wo.Execs}
-		if wo.Conc != nil {
-			pc["single_refresh_schedule_exploration"] = wo.Conc
-			if v, ok := wo.Conc["executions"].(float64); ok {
-				concExec += int64(v)
+		for _, cr := range wo.Conc {
+			k := cr.Cfg + " / " + cr.Scenario
+			m := concMerged[k]
+			if m == nil {
+				m = &concResult{Cfg: cr.Cfg, Scenario: cr.Scenario, Bounds: cr.Bounds, Exhaustive: true, Skipped: cr.Skipped}
+				concMerged[k] = m
+				concOrder = append(concOrder, k)
 			}
-			if v, ok := wo.Conc["distinct_outcomes"].(float64); ok {
-				concOutcomes += int64(v)
+			m.Executions += cr.Executions
+			m.Decisions += cr.Decisions
+			m.Exhaustive = m.Exhaustive && cr.Exhaustive
+			if cr.MaxDepth > m.MaxDepth {
+				m.MaxDepth = cr.MaxDepth
+			}
+			for _, h := range cr.Outcomes {
+				concOutcomeSet[k+"#"+h] = true
 			}
 		}
 		perCfg = append(perCfg, pc)
@@ -680,6 +688,20 @@ func main() {
 	for k := range classes {
 		r.Distinct("class:" + k)
 	}
+	var concList []map[string]any
+	for _, k := range concOrder {
+		m := concMerged[k]
+		n := 0
+		for h := range concOutcomeSet {
+			if strings.HasPrefix(h, k+"#") {
+				n++
+			}
+		}
+		concExec += m.Executions
+		concOutcomes += int64(n)
+		concList = append(concList, map[string]any{"config": m.Cfg, "scenario": m.Scenario, "bounds": m.Bounds, "executions": m.Executions, "decisions": m.Decisions, "distinct_outcomes": n, "exhaustive_within_bounds": m.Exhaustive, "max_depth": m.MaxDepth, "skipped": m.Skipped})
+	}
+	r.Set("single_refresh_schedule_exploration", concList)
 	r.Set("states", states)
 	r.Set("transitions", execs)
 	r.Set("traces_validated_against_impl", execs+concExec)
